@@ -502,6 +502,49 @@ let check_dump (id : string) (lines : string list) =
   with Failure m -> pr "CERT ERROR %s\n" m | Not_found -> pr "CERT ERROR notfound\n" | Invalid_argument m -> pr "CERT ERROR %s\n" m);
   pr "ENDCHECKED\n"
 
+(* ---------- definition-level token streams ---------- *)
+(* as parse_toks, plus `{` `}` for a rule-set body; keywords are identifiers (ilet, irule, itype, iError) *)
+let parse_dtoks (s : string) : dtok list =
+  let words = List.filter (fun x -> x <> "") (String.split_on_char ' ' s) in
+  (* split at top-level braces *)
+  let rec go ws (cur : string list) (acc : dtok list) : dtok list =
+    let flush () = List.map (fun t -> DT t) (parse_toks (String.concat " " (List.rev cur))) in
+    match ws with
+    | [] -> acc @ flush ()
+    | "{" :: rest ->
+        let rec body ws depth inner =
+          (match ws with
+           | [] -> failwith "unclosed brace"
+           | "}" :: r when depth = 0 -> (List.rev inner, r)
+           | "{" :: r -> body r (depth + 1) ("{" :: inner)
+           | "}" :: r -> body r (depth - 1) ("}" :: inner)
+           | w :: r -> body r depth (w :: inner)) in
+        let (inner, rest') = body rest 0 [] in
+        go rest' [] (acc @ flush () @ [DBrace (parse_toks (String.concat " " inner))])
+    | "}" :: _ -> failwith "unbalanced brace"
+    | w :: rest -> go rest (w :: cur) acc in
+  go words [] []
+
+let sexp_of_rob (x : rob) : string =
+  match x with
+  | RBBinding (v, re) -> Printf.sprintf "(let %s %s)" (string_of_name v) (sexp_of_regex re)
+  | RBRule r -> Printf.sprintf "(rule %d %s %s)" (int_of_nat r.ru_act) (sexp_of_regex r.ru_re)
+                  (match r.ru_ctx with None -> "-" | Some c -> sexp_of_regex c)
+
+let run_dtoks (s : string) =
+  match (try Some (parse_dtoks s) with Failure _ -> None) with
+  | None -> pr "ERR\n"
+  | Some ds ->
+      (match parse_def ds with
+       | None -> pr "ERR\n"
+       | Some tops ->
+           let d = number_tops O tops in
+           pr "OK %s\n" (String.concat "" (List.map (function
+             | TErrorType -> "(errtype)"
+             | TRob x -> sexp_of_rob x
+             | TRuleSet (nm, rules) ->
+                 "(ruleset " ^ string_of_name nm ^ String.concat "" (List.map (fun r -> " " ^ sexp_of_rob r) rules) ^ ")") d)))
+
 let () =
   let artifacts = ref true in
   let file = ref "" in
@@ -533,6 +576,7 @@ let () =
            | "RM" -> run_rm rest
            | "R2M" -> run_r2m rest
            | "TOKS" -> run_toks rest
+           | "DTOKS" -> run_dtoks rest
            | "GEN" ->
                let bounds = List.filter (fun x -> x <> "") (String.split_on_char ' ' rest)
                             |> List.map (fun x -> n_of_int (int_of_string x)) in
